@@ -320,27 +320,27 @@ var seqAlphabet = []string{
 
 // parkPrefixes leave the scanner in each documented non-terminal state.
 var parkPrefixes = [][]int{
-	{},                 // looking
-	{0},                // gotRoutineHeader
-	{0, 3},             // gotFunc
-	{0, 3, 5},          // gotFileFunc
-	{0, 3, 5, 6},       // gotCreated
-	{0, 3, 5, 6, 5},    // gotFileCreated
-	{0, 10},            // gotUnavail
-	{0, 3, 5, 7},       // betweenRoutine
-	{2},                // indented: gotRoutineHeader
-	{2, 17, 18},        // indented: gotFileFunc
-	{11},               // gotRaceHeader1
-	{11, 12},           // gotRaceHeader2
-	{11, 12, 13},       // gotRaceOperationHeader
-	{11, 12, 13, 17},   // gotRaceOperationFunc
-	{11, 12, 13, 17, 18},                       // gotRaceOperationFile
-	{11, 12, 13, 17, 18, 7},                    // betweenRaceOperations
-	{11, 12, 13, 17, 18, 7, 14, 17, 18, 7},     // betweenRaceOperations, two operations
-	{11, 12, 13, 17, 18, 7, 15},                // gotRaceGoroutineHeader
-	{11, 12, 13, 17, 18, 7, 15, 17},            // gotRaceGoroutineFunc
-	{11, 12, 13, 17, 18, 7, 15, 17, 18},        // gotRaceGoroutineFile
-	{11, 12, 13, 17, 18, 7, 15, 17, 18, 7},     // betweenRaceGoroutines
+	{},                                     // looking
+	{0},                                    // gotRoutineHeader
+	{0, 3},                                 // gotFunc
+	{0, 3, 5},                              // gotFileFunc
+	{0, 3, 5, 6},                           // gotCreated
+	{0, 3, 5, 6, 5},                        // gotFileCreated
+	{0, 10},                                // gotUnavail
+	{0, 3, 5, 7},                           // betweenRoutine
+	{2},                                    // indented: gotRoutineHeader
+	{2, 17, 18},                            // indented: gotFileFunc
+	{11},                                   // gotRaceHeader1
+	{11, 12},                               // gotRaceHeader2
+	{11, 12, 13},                           // gotRaceOperationHeader
+	{11, 12, 13, 17},                       // gotRaceOperationFunc
+	{11, 12, 13, 17, 18},                   // gotRaceOperationFile
+	{11, 12, 13, 17, 18, 7},                // betweenRaceOperations
+	{11, 12, 13, 17, 18, 7, 14, 17, 18, 7}, // betweenRaceOperations, two operations
+	{11, 12, 13, 17, 18, 7, 15},            // gotRaceGoroutineHeader
+	{11, 12, 13, 17, 18, 7, 15, 17},        // gotRaceGoroutineFunc
+	{11, 12, 13, 17, 18, 7, 15, 17, 18},    // gotRaceGoroutineFile
+	{11, 12, 13, 17, 18, 7, 15, 17, 18, 7}, // betweenRaceGoroutines
 }
 
 type seqCase struct {
